@@ -271,7 +271,11 @@ func (p *Path) callSSA(th *Thread, caller *Frame, fn *ssa.Function, args []Value
 			p.intr[name]++
 			return f(p, th, caller, args)
 		}
-		p.unsupported("call to %s", name)
+		chain := ""
+		for f, n := caller, 0; f != nil && n < 4; f, n = f.caller, n+1 {
+			chain += " <- " + f.fn.Name()
+		}
+		p.unsupported("call to %s%s", name, chain)
 	}
 	if fn.Blocks == nil {
 		p.e.ensureBuilt(fn)
